@@ -726,7 +726,7 @@ def _blocks_of(arr):
     return out
 
 
-def fam_diff_gradient(chk, da, tier):
+def fam_diff_gradient_values(chk, da, tier):
     rng = chk.rng
     for _ in range(3000 if tier == "thorough" else 300):
         nd = rng.choice([1, 1, 2])
@@ -770,6 +770,505 @@ def fam_diff_gradient(chk, da, tier):
                           signature={"fn": what, "class": "wrong-value"})
         else:
             chk.traces_validated += 1
+
+
+# =========================================================================================
+# diff / gradient against the Gallina model (coq/theories/DiffGrad.v)
+DG_HEADER = ("From DA Require Import PyBase Scan Window DiffGrad.\nFrom Coq Require Import QArith.\nOpen Scope Z_scope.\n"
+             "Definition tol : Q := Qmake 1 1000000000%positive.\n"
+             "Definition qll_eqb (exact : bool) (a b : list (list Q)) : bool := list_eqb (if exact then qlist_eqb else qlist_close tol) a b.\n")
+GUARD_MSG = "Chunk size must be larger than edge_order"
+_PROBE = {"rec": None}
+
+
+def _install_gradient_probe():
+    """wrap dask_array.routines._gradient._gradient_kernel (looked up by gradient() at call time) so that every
+    call records its block id, the extended block, the axis and the coordinate window; nothing in /repo changes"""
+    import dask_array.routines._gradient as G
+    if _PROBE["rec"] is not None:
+        return _PROBE["rec"]
+    rec = []
+    orig = G._gradient_kernel
+
+    def _gradient_kernel(x, block_id, coord, axis, array_locs, grad_kwargs):
+        win = None
+        if array_locs is not None:
+            b = block_id[axis]
+            win = (int(array_locs[0][b]), int(array_locs[1][b]),
+                   [int(v) for v in np.asarray(coord)[array_locs[0][b]:array_locs[1][b]]],
+                   ([int(v) for v in array_locs[0]], [int(v) for v in array_locs[1]]))
+        rec.append({"block_id": tuple(int(v) for v in block_id), "x": np.array(x, copy=True), "axis": int(axis), "win": win,
+                    "kw": dict(grad_kwargs)})
+        return orig(x, block_id, coord, axis, array_locs, grad_kwargs)
+
+    G._gradient_kernel = _gradient_kernel
+    _PROBE["rec"] = rec
+    return rec
+
+
+def cq(fr):
+    from fractions import Fraction
+    fr = Fraction(fr)
+    return f"(Qmake {cz(fr.numerator)} {fr.denominator}%positive)"
+
+
+def cqll(bs):
+    return clist(bs, lambda b: clist(b, cq))
+
+
+def dg_chunks(rng, n):
+    """layouts of an axis of length n >= 1 with many chunks of 1, 2, 3 (next to gradient's guard)"""
+    r = rng.random()
+    if r < 0.2:
+        k = rng.choice([1, 2, 2, 3, 3, 4])
+        return tuple([k] * (n // k) + ([n % k] if n % k else []))
+    if r < 0.3:
+        return (n,)
+    if r < 0.8:
+        out, left = [], n
+        while left > 0:
+            c = min(left, rng.choice([1, 2, 2, 3, 3, 3, 4, 5]))
+            out.append(c)
+            left -= c
+        rng.shuffle(out)
+        return tuple(out)
+    return chunkings(rng, n)
+
+
+def _nd_blocks(arr):
+    """{block index: ndarray} of the optimized graph of a dask array, the optimized collection"""
+    from dask.core import flatten
+    from dask.local import get_sync
+    o = arr.optimize()
+    keys = list(flatten(o.__dask_keys__()))
+    out = get_sync(o.__dask_graph__(), keys)
+    return {tuple(k[1:]): np.asarray(b) for k, b in zip(keys, out)}, o
+
+
+def _assemble(blocks, nd):
+    if nd == 1:
+        n = 1 + max(k[0] for k in blocks)
+        return np.concatenate([blocks[(i,)] for i in range(n)])
+    ni = 1 + max(k[0] for k in blocks)
+    nj = 1 + max(k[1] for k in blocks)
+    return np.block([[blocks[(i, j)] for j in range(nj)] for i in range(ni)])
+
+
+def _lane_of(block, axis, k):
+    """lane k (index along the other axis, block-local) of a 1-D / 2-D block along `axis`"""
+    if block.ndim == 1:
+        return block
+    return block[:, k] if axis == 0 else block[k, :]
+
+
+def _lane_blocks(blocks, nd, axis, lane, other_chunks):
+    """the pieces of global lane `lane` in the blocks along `axis`"""
+    if nd == 1:
+        n = 1 + max(k[0] for k in blocks)
+        return [blocks[(i,)] for i in range(n)]
+    starts = np.cumsum((0,) + tuple(other_chunks))
+    bj = int(np.searchsorted(starts, lane, side="right") - 1)
+    off = lane - int(starts[bj])
+    n = 1 + max(k[axis] for k in blocks)
+    return [_lane_of(blocks[(i, bj) if axis == 0 else (bj, i)], axis, off) for i in range(n)]
+
+
+def _to_int(v, scale):
+    from fractions import Fraction
+    f = Fraction(float(v)) * scale
+    if f.denominator != 1:
+        raise ValueError(f"{v!r} * {scale} is not an integer")
+    return int(f.numerator)
+
+
+def _gradient_run(da, rec, a, chunks, spacing, axis, eo):
+    """run da.gradient with the probe; returns ('raised', err) or ('ok', plan dict)"""
+    del rec[:]
+    x = da.from_array(a, chunks=chunks)
+    try:
+        g = da.gradient(x, spacing, axis=axis, edge_order=eo)
+    except Exception as e:  # noqa: BLE001
+        return "raised", e
+    e = g.expr
+    plan = {"node": type(e).__name__}
+    if type(e).__name__ == "MapOverlap":
+        plan.update(depth=[dict(d) for d in e.depth], boundary=[dict(b) for b in e.boundary], allow_rechunk=bool(e.allow_rechunk),
+                    trim=bool(e.trim_output))
+    plan["chunks"] = tuple(tuple(int(v) for v in c) for c in g.chunks)
+    try:
+        blocks, o = _nd_blocks(g)
+    except Exception as e2:  # noqa: BLE001
+        return "raised", e2
+    plan["blocks"] = blocks
+    plan["records"] = [dict(r) for r in rec]
+    return "ok", plan
+
+
+def _core_run(da, a, chunks, sp, eo):
+    """the map_overlap pipeline of gradient() WITHOUT its chunk-size guard (1-D, scalar spacing): the trimmed blocks, or None when
+    a block's np.gradient raises"""
+    import dask_array.routines._gradient as G
+    from dask_array._overlap import map_overlap
+    x = da.from_array(a, chunks=chunks).astype(float)
+    try:
+        g = map_overlap(G._gradient_kernel, x, dtype=float, depth={0: 1}, boundary="none", coord=sp, axis=0, array_locs=None,
+                        grad_kwargs={"edge_order": eo})
+        blocks, _o = _nd_blocks(g)
+    except ValueError as e:
+        if "too small to calculate a numerical gradient" in str(e):
+            return None
+        raise
+    return [blocks[(i,)] for i in range(len(blocks))]
+
+
+def _plan_problems(plan, a, chunks, axis, eo):
+    """the parts of the real plan that are not sent to Coq: node kind, depth / boundary dictionaries, the kernel's block ids, the
+    extent of the extended blocks along the other axes"""
+    nd = a.ndim
+    bad = []
+    if plan["node"] != "MapOverlap":
+        bad.append(f"node {plan['node']}")
+    else:
+        if plan["depth"] != [{j: (1 if j == axis else 0) for j in range(nd)}]:
+            bad.append(f"depth {plan['depth']}")
+        if plan["boundary"] != [{j: "none" for j in range(nd)}]:
+            bad.append(f"boundary {plan['boundary']}")
+        if not plan["allow_rechunk"] or not plan["trim"]:
+            bad.append("allow_rechunk/trim")
+    if plan["chunks"] != tuple(tuple(c) for c in chunks):
+        bad.append(f"advertised chunks {plan['chunks']}")
+    ids = sorted(r["block_id"] for r in plan["records"])
+    if ids != sorted(itertools.product(*[range(len(c)) for c in chunks])):
+        bad.append(f"kernel block ids {ids}")
+    for r in plan["records"]:
+        if r["axis"] != axis or r["kw"] != {"edge_order": eo}:
+            bad.append(f"kernel axis/kwargs {r['axis']} {r['kw']}")
+        for j in range(nd):
+            if j != axis and r["x"].shape[j] != chunks[j][r["block_id"][j]]:
+                bad.append(f"halo on axis {j}")
+    got_shapes = {k: b.shape for k, b in plan["blocks"].items()}
+    want_shapes = {k: tuple(chunks[j][k[j]] for j in range(nd)) for k in got_shapes}
+    if got_shapes != want_shapes:
+        bad.append(f"block shapes {got_shapes}")
+    return bad
+
+
+def fam_diff_gradient(chk, da, tier):
+    from fractions import Fraction
+    rng = chk.rng
+    rec = _install_gradient_probe()
+    thorough = tier == "thorough"
+    jobs = []   # the four model comparisons run concurrently at the end
+
+    # ---------------------------------------------------------------- gradient, scalar spacing
+    inputs = []
+    for n in range(1, 7 if thorough else 5):
+        for c in compositions(n):
+            for eo in (1, 2):
+                inputs.append(((n,), (c,), 0, eo, 1))
+    for _ in range(2500 if thorough else 200):
+        nd = rng.choice([1, 1, 2])
+        shape = tuple(rng.choice([1, 2, 3, 4, 5, 6, 8, 9, 13, 20]) for _ in range(nd))
+        chunks = tuple(dg_chunks(rng, s) for s in shape)
+        inputs.append((shape, chunks, rng.randrange(nd), rng.choice([1, 1, 2]), rng.choice([1, 1, 1, 2, 4, 0.5, 0.25, 3, 5])))
+    cases, kept, qcases, qkept, ccases, ckept = [], [], [], [], [], []
+    for shape, chunks, axis, eo, sp in inputs:
+        nd = len(shape)
+        a = np.array([rng.randint(-9, 9) for _ in range(int(np.prod(shape)))], dtype="int64").reshape(shape)
+        info = {"shape": shape, "chunks": chunks, "axis": axis, "edge_order": eo, "spacing": sp, "data": a.tolist()}
+        exact = float(sp) in (1.0, 2.0, 4.0, 0.5, 0.25)
+        try:
+            want = np.gradient(a, sp, axis=axis, edge_order=eo)
+        except ValueError:
+            want = None
+        status, plan = _gradient_run(da, rec, a, chunks, sp, axis, eo)
+        small = min(chunks[axis]) < eo + 1
+        chk.count(f"gradient:{nd}d:eo{eo}:" + ("minchunk<guard" if small else "minchunk==guard" if min(chunks[axis]) == eo + 1 else "minchunk>guard"))
+        chk.case(("gradient", shape, chunks, axis, eo, sp, a.tobytes()), nontrivial=len(chunks[axis]) > 1,
+                 sample={k: info[k] for k in ("shape", "chunks", "axis", "edge_order", "spacing")})
+        scale = Fraction(float(sp)) * 2
+        lanes = [0] if nd == 1 else sorted({0, rng.randrange(shape[1 - axis])})
+        if status == "raised":
+            if not (isinstance(plan, ValueError) and GUARD_MSG in str(plan)):
+                chk.violation(f"da.gradient raised: {norm_err(plan)}", info, signature={"class": "diff-gradient-raises", "fn": "gradient", "error": norm_err(plan)})
+                continue
+            chk.count("gradient:declined-small-chunk" + (":numpy-defined" if want is not None else ":numpy-raises-too"))
+            obs = None
+            if nd == 1 and exact and len(ccases) < (1500 if thorough else 90):
+                # what the pipeline behind the guard would have computed on this layout
+                core = _core_run(da, a, chunks, sp, eo)
+                if (core is None) != (want is None) or (core is not None and not np.array_equal(np.concatenate(core), want)):
+                    chk.count("gradient:pipeline-without-guard-differs-from-numpy")
+                ccases.append(ctuple(cz(eo), clist(chunks[0]), clist([int(v) for v in a]),
+                                     copt(None if core is None else [[_to_int(v, scale) for v in b] for b in core], cll)))
+                ckept.append(info)
+        else:
+            full = _assemble(plan["blocks"], nd)
+            if want is None:
+                chk.violation("da.gradient computed although numpy.gradient raises", info, signature={"class": "diff-gradient-value", "fn": "gradient", "numpy": "raises"})
+                continue
+            ok = full.shape == want.shape and (np.array_equal(full, want) if exact else np.allclose(full, want, rtol=1e-12, atol=0))
+            if not ok:
+                chk.violation("da.gradient differs from numpy.gradient", {**info, "impl": full.tolist(), "numpy": want.tolist()},
+                              signature={"class": "diff-gradient-value", "fn": "gradient", "edge_order": eo})
+                continue
+            for msg in _plan_problems(plan, a, chunks, axis, eo):
+                chk.tie_break("correspondence:gradient-plan", {**info, "problem": msg})
+            obs = True
+        for lane in lanes:
+            xs = [int(v) for v in (a if nd == 1 else (a[:, lane] if axis == 0 else a[lane, :]))]
+            npo = None if want is None else (want if nd == 1 else (want[:, lane] if axis == 0 else want[lane, :]))
+            if exact:
+                np_lit = copt(None if npo is None else [_to_int(v, scale) for v in npo], clist)
+                if obs is None:
+                    o_lit = "None"
+                else:
+                    other = chunks[1 - axis] if nd == 2 else None
+                    recs = {r["block_id"]: r["x"] for r in plan["records"]}
+                    ext = _lane_blocks(recs, nd, axis, lane, other)
+                    got = _lane_blocks(plan["blocks"], nd, axis, lane, other)
+                    o_lit = "(Some " + ctuple(cll(ext), cll([[_to_int(v, scale) for v in b] for b in got])) + ")"
+                cases.append(ctuple(cz(eo), clist(chunks[axis]), clist(xs), o_lit, np_lit))
+                kept.append({**info, "lane": lane})
+            if obs is not None and float(sp) != 1.0:
+                other = chunks[1 - axis] if nd == 2 else None
+                got = _lane_blocks(plan["blocks"], nd, axis, lane, other)
+                qcases.append(ctuple(cz(eo), cq(Fraction(float(sp))), clist(chunks[axis]), clist(xs),
+                                     cqll([[Fraction(float(v)) for v in b] for b in got]), cbool(exact)))
+                qkept.append({**info, "lane": lane})
+    jobs.append(((        DG_HEADER, "Z * list Z * list Z * option (list (list Z) * list (list Z)) * option (list Z)",
+        "Definition chk (c : Z * list Z * list Z * option (list (list Z) * list (list Z)) * option (list Z)) : bool :=\n"
+        "  let '(eo, cs, xs, obs, npo) := c in\n"
+        "  olist_eqb (np_gradient2 eo xs) npo &&\n"
+        "  match da_gradient2 eo (split_blocks cs xs), obs with\n"
+        "  | Some res, Some (ext, got) => zlist2_eqb res got && olist2_eqb (gradient_ext (split_blocks cs xs)) (Some ext)\n"
+        "  | None, None => true\n"
+        "  | _, _ => false\n"
+        "  end.", list(cases)), 80, "correspondence:gradient(unit/scalar spacing: guard, extended blocks, trimmed blocks, numpy definition)", list(kept)))
+    jobs.append(((        DG_HEADER, "Z * Q * list Z * list Z * list (list Q) * bool",
+        "Definition chk (c : Z * Q * list Z * list Z * list (list Q) * bool) : bool :=\n"
+        "  let '(eo, h, cs, xs, got, exact) := c in\n"
+        "  match da_gradient eo h (split_blocks cs xs) with Some res => qll_eqb exact res got | None => false end.", list(qcases)), 80, "correspondence:gradient(scalar spacing, rationals)", list(qkept)))
+
+    jobs.append(((DG_HEADER, "Z * list Z * list Z * option (list (list Z))",
+                  "Definition chk (c : Z * list Z * list Z * option (list (list Z))) : bool :=\n"
+                  "  let '(eo, cs, xs, core) := c in\n"
+                  "  olist2_eqb (da_gradient2_core eo (split_blocks cs xs)) core &&\n"
+                  "  match np_gradient2 eo xs, core with Some g, Some r => zlist_eqb g (concat r) | None, None => true | _, _ => false end.",
+                  list(ccases)), 80, "correspondence:gradient(map_overlap pipeline without the guard)", list(ckept)))
+
+    # ---------------------------------------------------------------- gradient, coordinate arrays
+    cases, kept = [], []
+    for _ in range(800 if thorough else 70):
+        nd = rng.choice([1, 1, 2])
+        eo = rng.choice([1, 2])
+        shape, chunks = [], []
+        for _j in range(nd):
+            parts = [rng.choice([eo + 1, eo + 1, eo + 2, 4, 5]) for _ in range(rng.choice([1, 2, 2, 3, 4]))]
+            chunks.append(tuple(parts))
+            shape.append(sum(parts))
+        shape, chunks = tuple(shape), tuple(chunks)
+        axis = rng.randrange(nd)
+        a = np.array([rng.randint(-9, 9) for _ in range(int(np.prod(shape)))], dtype="int64").reshape(shape)
+        uniform = rng.random() < 0.15
+        steps = [rng.choice([2]) if uniform else rng.choice([1, 2, 3, 4]) for _ in range(shape[axis])]
+        coord = np.cumsum(steps) + rng.randint(-5, 5)
+        info = {"shape": shape, "chunks": chunks, "axis": axis, "edge_order": eo, "coords": coord.tolist(), "data": a.tolist()}
+        want = np.gradient(a, coord.astype(float), axis=axis, edge_order=eo)
+        status, plan = _gradient_run(da, rec, a, chunks, coord.astype(float), axis, eo)
+        chk.count(f"gradient-coords:{nd}d:eo{eo}:" + ("uniform" if uniform else "nonuniform"))
+        chk.case(("gradient-coords", shape, chunks, axis, eo, coord.tobytes(), a.tobytes()), nontrivial=len(chunks[axis]) > 1)
+        if status == "raised":
+            chk.violation(f"da.gradient(f, coords) raised: {norm_err(plan)}", info, signature={"class": "diff-gradient-raises", "fn": "gradient", "spacing": "coords", "error": norm_err(plan)})
+            continue
+        full = _assemble(plan["blocks"], nd)
+        if full.shape != want.shape or not np.allclose(full, want, rtol=1e-10, atol=1e-12):
+            chk.violation("da.gradient(f, coords) differs from numpy.gradient", {**info, "impl": full.tolist(), "numpy": want.tolist()},
+                          signature={"class": "diff-gradient-value", "fn": "gradient", "spacing": "coords", "edge_order": eo})
+            continue
+        for msg in _plan_problems(plan, a, chunks, axis, eo):
+            chk.tie_break("correspondence:gradient-plan", {**info, "problem": msg})
+        wins = {}
+        for r in plan["records"]:
+            wins.setdefault(r["block_id"][axis], set()).add((r["win"][0], r["win"][1], tuple(r["win"][2]), (tuple(r["win"][3][0]), tuple(r["win"][3][1]))))
+        if any(len(v) != 1 for v in wins.values()):
+            chk.tie_break("correspondence:gradient-coords(windows differ between blocks of one position)", info)
+            continue
+        wl = [next(iter(wins[i])) for i in range(len(chunks[axis]))]
+        locs = wl[0][3]
+        lane = 0 if nd == 1 else rng.randrange(shape[1 - axis])
+        other = chunks[1 - axis] if nd == 2 else None
+        xs = [int(v) for v in (a if nd == 1 else (a[:, lane] if axis == 0 else a[lane, :]))]
+        got = _lane_blocks(plan["blocks"], nd, axis, lane, other)
+        npl = want if nd == 1 else (want[:, lane] if axis == 0 else want[lane, :])
+        recs = {r["block_id"]: r["x"] for r in plan["records"]}
+        ext = _lane_blocks(recs, nd, axis, lane, other)
+        cases.append(ctuple(cz(eo), clist(chunks[axis]), clist(xs), clist(coord), ctuple(clist(locs[0]), clist(locs[1])),
+                            cll([w[2] for w in wl]), cll(ext), cqll([[Fraction(float(v)) for v in b] for b in got]),
+                            clist([Fraction(float(v)) for v in npl], cq)))
+        kept.append({**info, "lane": lane, "array_locs": locs})
+    jobs.append(((        DG_HEADER, "Z * list Z * list Z * list Z * (list Z * list Z) * list (list Z) * list (list Z) * list (list Q) * list Q",
+        "Definition chk (c : Z * list Z * list Z * list Z * (list Z * list Z) * list (list Z) * list (list Z) * list (list Q) * list Q) : bool :=\n"
+        "  let '(eo, cs, xs, coord, locs, wins, ext, got, npg) := c in\n"
+        "  zlist_eqb (fst (array_locs cs)) (fst locs) && zlist_eqb (snd (array_locs cs)) (snd locs) &&\n"
+        "  zlist2_eqb (coord_windows coord cs) wins && olist2_eqb (gradient_ext (split_blocks cs xs)) (Some ext) &&\n"
+        "  olist2_eqb (gradient_ext (split_blocks cs coord)) (Some wins) &&\n"
+        "  match da_gradient_x eo (split_blocks cs (combine xs coord)) with Some res => qll_eqb false res got | None => false end &&\n"
+        "  match np_gradient_x eo (combine xs coord) with Some g => qlist_close tol g npg | None => false end.", list(cases)), 40, "correspondence:gradient(coordinates: array_locs, coordinate windows, extended blocks, values)", list(kept)))
+
+    # ---------------------------------------------------------------- several axes at once (values only)
+    for _ in range(400 if thorough else 30):
+        eo = rng.choice([1, 2])
+        chunks = tuple(tuple(rng.choice([eo, eo + 1, eo + 1, eo + 2, 4]) for _ in range(rng.choice([1, 2, 3]))) for _ in range(2))
+        shape = tuple(sum(c) for c in chunks)
+        a = np.array([rng.randint(-9, 9) for _ in range(int(np.prod(shape)))], dtype="int64").reshape(shape)
+        axes = rng.choice([None, (0, 1), (1, 0), (1,), (-1, 0)])
+        ax_list = (0, 1) if axes is None else tuple(v % 2 for v in axes)
+        sps = [rng.choice([2, 0.5, "c"]) for _ in ax_list]
+        sps = [np.cumsum([rng.choice([1, 2, 3]) for _ in range(shape[ax])]).astype(float) if v == "c" else v for v, ax in zip(sps, ax_list)]
+        info = {"shape": shape, "chunks": chunks, "axis": axes, "edge_order": eo, "spacing": [v.tolist() if isinstance(v, np.ndarray) else v for v in sps], "data": a.tolist()}
+        try:
+            want = np.gradient(a, *sps, axis=axes, edge_order=eo)
+        except (ValueError, IndexError):   # an axis shorter than edge_order + 1 (a one-point coordinate array trips NumPy itself)
+            continue
+        want = [want] if isinstance(want, np.ndarray) else list(want)
+        guard_ok = all(min(chunks[ax]) >= eo + 1 for ax in ax_list)
+        chk.count("gradient-multi-axis:" + ("guard-ok" if guard_ok else "guard-fails"))
+        chk.case(("gradient-multi", shape, chunks, axes, eo, json.dumps(info["spacing"]), a.tobytes()), nontrivial=True)
+        try:
+            got = da.gradient(da.from_array(a, chunks=chunks), *sps, axis=axes, edge_order=eo)
+            got = [g.compute() for g in (got if isinstance(got, (list, tuple)) else [got])]
+        except Exception as e:  # noqa: BLE001
+            if not (isinstance(e, ValueError) and GUARD_MSG in str(e) and not guard_ok):
+                chk.violation(f"da.gradient (several axes) raised: {norm_err(e)}", info, signature={"class": "diff-gradient-raises", "fn": "gradient", "axes": "several", "error": norm_err(e)})
+            continue
+        if not guard_ok:
+            chk.tie_break("correspondence:gradient-guard(several axes: a chunk below edge_order + 1 was accepted)", info)
+        if len(got) != len(want) or any(g.shape != w.shape or not np.allclose(g, w, rtol=1e-10, atol=1e-12) for g, w in zip(got, want)):
+            chk.violation("da.gradient (several axes) differs from numpy.gradient", {**info, "impl": [g.tolist() for g in got], "numpy": [w.tolist() for w in want]},
+                          signature={"class": "diff-gradient-value", "fn": "gradient", "axes": "several"})
+        else:
+            chk.traces_validated += 1
+
+    # ---------------------------------------------------------------- the result of gradient, sliced
+    sl_inputs = [((3, 2, 2, 3), 1, "coords", (3, None))]
+    for _ in range(150 if thorough else 16):
+        eo = rng.choice([1, 2])
+        parts = tuple(rng.choice([eo + 1, eo + 1, eo + 2, 4]) for _ in range(rng.choice([2, 3, 4])))
+        n = sum(parts)
+        lo = rng.randrange(0, n - 1)
+        sl_inputs.append((parts, eo, rng.choice(["coords", "scalar"]), (lo, rng.choice([None, rng.randint(lo + 1, n)]))))
+    for parts, eo, kind, (lo, hi) in sl_inputs:
+        n = sum(parts)
+        a = np.array([rng.randint(-9, 9) for _ in range(n)], dtype="int64")
+        coord = np.cumsum([rng.choice([1, 2, 3, 4]) for _ in range(n)]).astype(float)
+        sp = coord if kind == "coords" else 2
+        want = np.gradient(a, sp, edge_order=eo)[lo:hi]
+        info = {"chunks": parts, "edge_order": eo, "spacing": coord.tolist() if kind == "coords" else 2, "slice": (lo, hi), "data": a.tolist(),
+                "repro": f"x=da.from_array(np.array({a.tolist()}), chunks=({parts},)); da.gradient(x, {'np.array(%s)' % coord.tolist() if kind == 'coords' else 2}, axis=0, edge_order={eo})[{lo}:{'' if hi is None else hi}].compute()"}
+        chk.count(f"gradient-sliced:{kind}")
+        chk.case(("gradient-sliced", parts, eo, kind, lo, hi, a.tobytes(), coord.tobytes()), nontrivial=True)
+        try:
+            got = da.gradient(da.from_array(a, chunks=(parts,)), sp, axis=0, edge_order=eo)[lo:hi].compute()
+        except Exception as e:  # noqa: BLE001
+            chk.violation(f"da.gradient(...)[{lo}:{hi}] raised: {norm_err(e)}", info,
+                          signature={"class": "diff-gradient-value", "fn": "gradient", "via": "sliced-result", "spacing": kind, "outcome": "raises"})
+            continue
+        if got.shape != want.shape or not np.allclose(got, want, rtol=1e-10, atol=1e-12):
+            chk.violation(f"da.gradient(...)[{lo}:{hi}] differs from numpy.gradient(...)[{lo}:{hi}]", {**info, "impl": got.tolist(), "numpy": want.tolist()},
+                          signature={"class": "diff-gradient-value", "fn": "gradient", "via": "sliced-result", "spacing": kind, "outcome": "wrong-value"})
+        else:
+            chk.traces_validated += 1
+
+    # ---------------------------------------------------------------- diff
+    inputs = []
+    for n in range(0, 5 if thorough else 4):
+        for c in (compositions(n) if n else [(0,)]):
+            for k in (-1, 0, 1, 2, 3, n, n + 1):
+                inputs.append(((n,), (c,), 0, k, None, None))
+    for _ in range(2000 if thorough else 170):
+        nd = rng.choice([1, 1, 2])
+        shape = tuple(rng.choice([1, 2, 3, 4, 5, 8, 13, 20]) for _ in range(nd))
+        chunks = tuple(dg_chunks(rng, s) for s in shape)
+        axis = rng.randrange(nd)
+
+        def pa():
+            r = rng.random()
+            if r < 0.55:
+                return None
+            if r < 0.8:
+                return rng.randint(-9, 9)
+            sh = list(shape)
+            sh[axis] = rng.choice([1, 2, 3])
+            return np.array([rng.randint(-9, 9) for _ in range(int(np.prod(sh)))], dtype="int64").reshape(sh)
+        inputs.append((shape, chunks, axis, rng.choice([-1, 0, 1, 1, 1, 2, 2, 3, 4, shape[axis], shape[axis] + 2]), pa(), pa()))
+    cases, kept = [], []
+    for shape, chunks, axis, k, pre, app in inputs:
+        nd = len(shape)
+        a = np.array([rng.randint(-9, 9) for _ in range(int(np.prod(shape)))], dtype="int64").reshape(shape)
+        kw = {}
+        if pre is not None:
+            kw["prepend"] = pre
+        if app is not None:
+            kw["append"] = app
+        info = {"shape": shape, "chunks": chunks, "axis": axis, "n": k, "data": a.tolist(),
+                **{kk: (v.tolist() if isinstance(v, np.ndarray) else v) for kk, v in kw.items()}}
+        try:
+            want = np.diff(a, k, axis=axis, **kw)
+        except ValueError:
+            want = None
+        try:
+            r = da.diff(da.from_array(a, chunks=chunks), k, axis=axis, **kw)
+            blocks, o = _nd_blocks(r)
+            got = _assemble(blocks, nd)
+            adv = tuple(tuple(int(v) for v in c) for c in o.chunks)
+            real = tuple(tuple(blocks[tuple(i if jj == j else 0 for jj in range(nd))].shape[j] for i in range(len(adv[j]))) for j in range(nd))
+            if adv != real:
+                chk.violation("da.diff advertises chunks its blocks do not have", {**info, "advertised": adv, "blocks": real},
+                              signature={"class": "diff-gradient-value", "fn": "diff", "what": "chunks"})
+        except ValueError as e:
+            got = None
+            if "order must be non-negative" not in str(e):
+                chk.violation(f"da.diff raised: {norm_err(e)}", info, signature={"class": "diff-gradient-raises", "fn": "diff", "error": norm_err(e)})
+                continue
+        except Exception as e:  # noqa: BLE001
+            chk.violation(f"da.diff raised: {norm_err(e)}", info, signature={"class": "diff-gradient-raises", "fn": "diff", "error": norm_err(e)})
+            continue
+        chk.count(f"diff:{nd}d:n{'<0' if k < 0 else '=0' if k == 0 else '>len' if k > shape[axis] else k}" + (":prepend" if pre is not None else "") + (":append" if app is not None else ""))
+        chk.case(("diff", shape, chunks, axis, k, repr(info.get("prepend")), repr(info.get("append")), a.tobytes()), nontrivial=len(chunks[axis]) > 1 and k > 0,
+                 sample={kk: info[kk] for kk in info if kk != "data"})
+        if (got is None) != (want is None) or (got is not None and (got.shape != want.shape or not np.array_equal(got, want))):
+            chk.violation("da.diff differs from numpy.diff", {**info, "impl": None if got is None else got.tolist(), "numpy": None if want is None else want.tolist()},
+                          signature={"class": "diff-gradient-value", "fn": "diff", "n": k})
+            continue
+        lane = 0 if nd == 1 else rng.randrange(shape[1 - axis])
+
+        def ln(v):
+            if v is None:
+                return None
+            if not isinstance(v, np.ndarray):
+                return [int(v)]
+            return [int(t) for t in (v if nd == 1 else (v[:, lane] if axis == 0 else v[lane, :]))]
+        cases.append(ctuple(cz(k), copt(ln(pre), clist), copt(ln(app), clist), clist(ln(a)), copt(None if got is None else ln(got), clist),
+                            copt(None if want is None else ln(want), clist)))
+        kept.append({**info, "lane": lane})
+    jobs.append(((        DG_HEADER, "Z * option (list Z) * option (list Z) * list Z * option (list Z) * option (list Z)",
+        "Definition chk (c : Z * option (list Z) * option (list Z) * list Z * option (list Z) * option (list Z)) : bool :=\n"
+        "  let '(n, p, q, xs, got, npo) := c in\n"
+        "  olist_eqb (da_diff n p q xs) got && olist_eqb (np_diff_full n p q xs) npo &&\n"
+        "  (if 0 <? n then olist_eqb (Some (np_diff_closed (Z.to_nat n) (diff_combined p q xs))) npo else true).", list(cases)), 80, "correspondence:diff(loop of slices, numpy definition, closed form)", list(kept)))
+
+
+
+# =========================================================================================
+
+    from concurrent.futures import ThreadPoolExecutor
+    with ThreadPoolExecutor(max_workers=len(jobs)) as ex:
+        results = list(ex.map(lambda jb: coq_eval_cases(*jb[0], chunk=(400 if thorough else jb[1]), jobs=4), jobs))
+    for (args, _chunk, kind, keptl), (mism, _log) in zip(jobs, results):
+        for i in mism[:5]:
+            chk.tie_break(kind, keptl[i])
+        chk.traces_validated += len(args[3]) - len(mism)
 
 
 
@@ -897,9 +1396,17 @@ def run(chk: Check):
                 "(CumReductionBlelloch._layer wiring, SlidingWindowReduction.chunks/_block_plan, supports_native_sliding_window, MovingWindowReduction._block_plan, supports_native_moving_window, "
                 "_overlap_internal_chunks, ensure_minimum_chunksize, _get_overlap_rechunked_chunks) and the per-block outputs of the optimized "
                 "graphs vs the Gallina models evaluated in Coq; non-trivial = more than one block and window/depth > trivial")
+    chk.rule += ("; diff / gradient (fam_diff_gradient): exhaustive layouts of n <= 4 (5 in thorough) + structured random 1-D / 2-D integer arrays with chunks of 1, 2, 3 "
+                 "next to gradient's guard, every axis, edge_order 1 / 2, spacing 1, 2, 4, 1/2, 1/4, 3, 5 and non-uniform / uniform integer coordinate arrays, "
+                 "diff n in -1..len+2 with scalar / array prepend / append: the real plan (MapOverlap node, depth, boundary, advertised chunks, and -- recorded by "
+                 "wrapping _gradient_kernel -- block ids, extended blocks, array_locs and the coordinate windows) and the exact values (2h * gradient as integers, "
+                 "rationals) vs DiffGrad.v evaluated in Coq; the map_overlap pipeline run without the guard; sliced gradient results vs NumPy")
     chk.assumptions = ["math.log2 in the Blelloch down-sweep start is exact on the block counts used (the wiring is read back and compared for every generated count)",
                        "N-D behaviour is the 1-D behaviour per index of the other axes (checked against NumPy only, 2-D)",
-                       "integer data: int64 without overflow on the generated domain"]
+                       "integer data: int64 without overflow on the generated domain",
+                       "gradient with coordinate arrays / spacings that are not powers of two: the float results are compared with the exact rational model "
+                       "within 1e-9 relative (inside Coq, Qle_bool); NumPy's shortcut to the scalar formulas for equally spaced coordinates is not modelled "
+                       "(same rational values)"]
     chk.trusted_base = ["block extraction through dask.local.get_sync on the optimized collection (harness/c19.py:real_blocks/_blocks_of)"]
     chk.run_proofs()
     fam_sliding_values(chk, da, chk.tier)
@@ -908,5 +1415,6 @@ def run(chk: Check):
     fam_scan(chk, da, chk.tier)
     fam_overlap_struct(chk, da, chk.tier)
     fam_overlap_values(chk, da, chk.tier)
+    fam_diff_gradient_values(chk, da, chk.tier)
     fam_diff_gradient(chk, da, chk.tier)
     fam_moving(chk, da, chk.tier)
